@@ -145,6 +145,13 @@ def job_tree(res, rng, w, home, job):
     os.mkdir(root)
     kinds = ("file", "dir", "symlink", "socket", "chr", "blk") + (("fifo",) if job.get("fifo") else ())
     nodes = tree.gen_tree(rng, max_entries=30, max_depth=4, kinds=kinds, content=content_for, special_p=0.25)
+    # entries that share a name and are visited one after the other (an entry's columns are its own, whatever came before):
+    # a chain same/same/same and two directories whose only child has the same name
+    have = set(n["path"] for n in nodes)
+    for pth, kind in (("same", "dir"), ("same/same", "dir"), ("same/same/same", "file"), ("twin1", "dir"), ("twin1/only", "file"),
+                      ("twin2", "dir"), ("twin2/only", "file"), ("twin3", "dir"), ("twin3/only", "dir")):
+        if pth not in have:
+            nodes.append({"path": pth, "kind": kind, **({"content": content_for(rng)} if kind == "file" else {})})
     base = 1_500_000_000
     for n in nodes:
         if n["kind"] != "symlink":
